@@ -70,7 +70,11 @@ def compare(impl, model):
                 return (ia, ma)
             continue
         rest = list(ia)
-        for ml in ma:
+        # exact lines first, then the lines with alternatives, fewest alternatives first: a greedy
+        # pass in production order could give an exact line's only partner to a line that has others
+        order = sorted(range(len(ma)), key=lambda j: (0 if split_alts(ma[j])[1] is None
+                                                      else len(split_alts(ma[j])[1])))
+        for ml in [ma[j] for j in order]:
             hit = None
             for k, il in enumerate(rest):
                 if match_line(il, ml):
